@@ -187,9 +187,10 @@ class kani_adapter:
                     oc["note"] = "harness uses stubs (uninterpreted callees / contracts); a counterexample would be over the abstraction, so a concrete input is searched with the paired bounded-exec obligation"
                 if not oc["input_found"] and o.witness:
                     cache = ctx.setdefault("witness_cache", {})
-                    if o.witness not in cache:
-                        cache[o.witness] = exec_engine.witness_search(ctx, o)
-                    w = cache[o.witness]
+                    wkey = o.witness if isinstance(o.witness, str) else tuple(o.witness)
+                    if wkey not in cache:
+                        cache[wkey] = exec_engine.witness_search(ctx, o)
+                    w = cache[wkey]
                     if w:
                         oc["witness"] = w
                         oc["input_found"] = True
